@@ -24,7 +24,8 @@ RULE = ('(A) real 2021-2023 returns and generated programs solved with total and
         'reads compared with the prompt calls; (B) histories of 3-8 operations {solve+prompt+writeback (total | interrupted after k '
         'answers), re-solve, delete keys, re-serialise} on one input file through `habutax solve`, with a model dict of known answers. '
         'Non-trivial = a history with at least one answered prompt, a write-back and a later re-solve; distinct = (scenario, op sequence)'
-        ' Also: a file value that its input rejects, with the prompt enabled (the file supplies it: it must not be asked for).')
+        ' Also: a file value that its input rejects, with the prompt enabled (the file supplies it: it must not be asked for).'
+        ' Every line the command-line prompt quotes as needing the input must be a line of the form it is attributed to; a re-solve on the written-back file must not fail to read it.')
 ASSUMPTIONS = ['prompt texts identify the input by the "----[ form.name ]----" header the CLI prints',
                'answers are compared after strip(); answer texts may contain "%" (typed literally at the prompt)']
 
